@@ -27,12 +27,21 @@ namespace au {
 template <typename Rep, typename... BPs>
 constexpr bool can_scale_without_overflow(Magnitude<BPs...> m, Rep value) {
     // Scales that shrink don't cause overflow.
-    if (get_value<double>(m) <= 1.0) {
+    constexpr auto mag_as_double = detail::get_value_result<double>(Magnitude<BPs...>{});
+    if (mag_as_double.outcome == detail::MagRepresentationOutcome::OK && mag_as_double.value <= 1.0) {
+        (void)m;
         (void)value;
         return true;
-    } else {
-        return std::numeric_limits<Rep>::max() / get_value<Rep>(m) >= value;
     }
+
+    // If the scale factor itself cannot be represented in `Rep`, then scaling would overflow.  (We
+    // must not call `get_value<Rep>(m)` here, because that would be a hard error, and this function
+    // is used to answer questions such as `std::is_convertible`.)
+    constexpr auto mag_as_rep = detail::get_value_result<Rep>(Magnitude<BPs...>{});
+    if (mag_as_rep.outcome != detail::MagRepresentationOutcome::OK) {
+        return false;
+    }
+    return std::numeric_limits<Rep>::max() / mag_as_rep.value >= value;
 }
 
 namespace detail {
